@@ -163,6 +163,9 @@ func factsSexpr(tm *t.Map, facts []*a.Expr) string {
 			out = append(out, s)
 		}
 	}
+	if len(out) == 0 {
+		return "0"
+	}
 	return fmt.Sprint(len(out)) + " " + strings.Join(out, " ")
 }
 
@@ -214,10 +217,41 @@ func corrOps(ck *Checked, in *Interp, res *ProgResult) (ops []opLine) {
 		res.Stats["corr:bounds-ops"]++
 		ops = append(ops, opLine{"bounds " + factsSexpr(tm, facts) + " " + s, strings.Join(bs, " ")})
 	}
+	// facts <n> <fact>*n assign <lhs> <rhs> | opassign <op> <lhs> <rhs>  ->  <m> <fact>*m
+	emitStmt := func(line int, n *a.Assign, after []*a.Expr, haveAfter bool) {
+		before, ok := in.factsBefore[line]
+		lhs, rhs := n.LHS(), n.RHS()
+		if !ok || !haveAfter || lhs == nil || rhs == nil || !rhs.Effect().Pure() {
+			return
+		}
+		if lhs.Operator() != 0 && lhs.IsThisDotFoo() == 0 {
+			return
+		}
+		ls, ok1 := exprSexpr(tm, lhs, nil)
+		rs, ok2 := exprSexpr(tm, rhs, nil)
+		if !ok1 || !ok2 || !strings.HasPrefix(ls, "v ") {
+			res.Stats["corr:stmt-outside-fragment"]++
+			return
+		}
+		op := ""
+		if n.Operator() == t.IDEq {
+			op = "assign"
+		} else if nm, ok := binOpNames[n.Operator().BinaryForm()]; ok {
+			op = "opassign " + nm
+		} else {
+			return
+		}
+		res.Stats["corr:facts-ops"]++
+		ops = append(ops, opLine{"facts " + factsSexpr(tm, before) + " " + op + " " + ls + " " + rs, factsSexpr(tm, after)})
+	}
 	walk = func(block []*a.Node) {
-		for _, o := range block {
+		first := 0
+		for i, o := range block {
 			_, ln := o.AsRaw().FilenameLine()
 			line := int(ln)
+			if first == 0 && o.Kind() != a.KVar {
+				first = line
+			}
 			switch o.Kind() {
 			case a.KVar:
 				addType(o.AsVar().XType())
@@ -226,6 +260,15 @@ func corrOps(ck *Checked, in *Interp, res *ProgResult) (ops []opLine) {
 				if n.Operator() == t.IDEq && n.LHS() != nil {
 					emitExpr(line, n.RHS())
 				}
+				var after []*a.Expr
+				haveAfter := false
+				if i+1 < len(block) {
+					_, ln2 := block[i+1].AsRaw().FilenameLine()
+					after, haveAfter = in.factsBefore[int(ln2)]
+				} else {
+					after, haveAfter = in.factsEnd[first]
+				}
+				emitStmt(line, n, after, haveAfter)
 			case a.KIf:
 				n := o.AsIf()
 				emitExpr(line, n.Condition())
